@@ -169,6 +169,9 @@ def run(ctx):
         if e["exc"] and "SystemExit" not in e["exc"]:
             # an uncaught exception is still a non-zero exit without file changes; recorded for the report
             ctx.divergence("uncaught exception", dict(cmd=e["dbg"], exc=e["exc"][:200]))
+    if not ctx.quick:
+        from . import hooktrace as _ht
+        _ht.apply(ctx, ("text",), ("gate:",))      # the repository's own tests, recorded through the hooks
     ctx.evaluations = len(events)
     for e in events:
         if e["exit"] == 0:
